@@ -123,9 +123,10 @@ def read_desc(path, fmt):
 
 
 class Outcome:
-    __slots__ = ("ok", "value", "exc", "route")
+    __slots__ = ("ok", "value", "exc", "route", "tool_ok")
 
     def __init__(self, ok, value=None, exc=None, route=None):
+        self.tool_ok = ok
         self.ok = ok
         self.value = value
         self.exc = exc
@@ -206,6 +207,7 @@ _subs = [0]
 optimized_runs = [0]
 ascii_locale_runs = [0]
 warnings_as_errors_runs = [0]
+file_size_limit_runs = {"exit-0": 0, "failed": 0}
 
 
 def cli_sub(argv, cwd, guard=False, timeout=300, env_extra=None, hashseed="0", ascii_locale=True):
@@ -233,8 +235,28 @@ def cli_sub(argv, cwd, guard=False, timeout=300, env_extra=None, hashseed="0", a
         # a rarely taken path must not change what the tool does
         flags += ["-W", "error"]
         warnings_as_errors_runs[0] += 1
-    p = subprocess.run([core.PY] + flags + ["-m", "suit_generator.cli"] + respell(argv), cwd=cwd, env=env,
-                       capture_output=True, timeout=timeout)
+    cmd = [core.PY] + flags + ["-m", "suit_generator.cli"] + respell(argv)
+    rl = random.Random(f"fsize/{_subs[0]}")
+    if rl.random() < 0.2:
+        # an OS-level fault for the real CLI: a file-size limit (ulimit -f / quota / nearly full disk). A run that fails
+        # under the limit is repeated without it (inputs restored first - in-place operations destroy them); a run that
+        # EXITS 0 under the limit is judged by the caller's oracle like any other
+        from .mon import faults
+        limit = rl.choice([0, 1, 7, 16, 40, 100, 300, 1000, 4096, 40000])
+        snap = faults._snapshot([str(a) for a in argv])
+
+        def _limit():
+            import resource
+            resource.setrlimit(resource.RLIMIT_FSIZE, (limit, limit))
+        p = subprocess.run(cmd, cwd=cwd, env=env, capture_output=True, timeout=timeout, preexec_fn=_limit)
+        if p.returncode == 0:
+            file_size_limit_runs["exit-0"] += 1
+            return 0, p.stderr.decode("utf-8", "replace")[-1500:]
+        file_size_limit_runs["failed"] += 1
+        for path, data in snap.items():
+            with open(path, "wb") as fh:
+                fh.write(data)
+    p = subprocess.run(cmd, cwd=cwd, env=env, capture_output=True, timeout=timeout)
     return p.returncode, p.stderr.decode("utf-8", "replace")[-1500:]
 
 
@@ -338,7 +360,33 @@ def create(desc, workdir, route="lib", fmt="json"):
                 os.unlink(p)
 
 
+def _content_key(path):
+    import hashlib
+    try:
+        with open(path, "rb") as fh:
+            return hashlib.sha1(fh.read(1 << 20)).hexdigest()
+    except OSError:
+        return "?"
+
+
+def _under_faults(key, once, route, p=0.03):
+    """vlib/mon/faults.py: a share of the in-process operations meets an injected I/O fault; one that fails is run
+    again without it, one that reports success is judged by the caller's oracle like any other"""
+    from .mon import faults
+    box = {}
+
+    def invoke():
+        box["o"] = o = once()
+        return None if o.tool_ok else (o.exc or RuntimeError("failed"))
+    faults.run(key, invoke, p=p if route in ("lib", "cmd", "cli") else 0)
+    return box["o"]
+
+
 def create_file(src, dst, route="lib", fmt="AUTO"):
+    return _under_faults(f"create/{route}/{_content_key(src)}", lambda: _create_file_once(src, dst, route, fmt), route)
+
+
+def _create_file_once(src, dst, route="lib", fmt="AUTO"):
     try:
         if route == "lib":
             from suit_generator.envelope import SuitEnvelope
@@ -360,10 +408,15 @@ def create_file(src, dst, route="lib", fmt="AUTO"):
                 return Outcome(False, exc=RuntimeError(f"cli exit {rc}: {err[-300:]}"), route=route)
         else:
             raise AssertionError(route)
-        with open(dst, "rb") as fh:
-            return Outcome(True, fh.read(), route=route)
     except Exception as e:  # noqa: the outcome is what the monitors look at
         return Outcome(False, exc=e, route=route)
+    try:
+        with open(dst, "rb") as fh:
+            return Outcome(True, fh.read(), route=route)
+    except Exception as e:  # noqa: the tool reported success without an output file
+        o = Outcome(False, exc=e, route=route)
+        o.tool_ok = True
+        return o
 
 
 # ---- parse -----------------------------------------------------------------------------------------
@@ -373,6 +426,16 @@ def parse(data, workdir, route="lib", fmt="json", hierarchy=False):
     dst = fresh_out(workdir, "." + fmt)
     with open(src, "wb") as fh:
         fh.write(data)
+    try:
+        return _under_faults(f"parse/{route}/{fmt}/{_content_key(src)}",
+                             lambda: _parse_once(src, dst, workdir, route, fmt, hierarchy), route)
+    finally:
+        for p in (src, dst):
+            with contextlib.suppress(OSError):
+                os.unlink(p)
+
+
+def _parse_once(src, dst, workdir, route, fmt, hierarchy):
     try:
         if route == "lib":
             from suit_generator.envelope import SuitEnvelope
@@ -394,13 +457,14 @@ def parse(data, workdir, route="lib", fmt="json", hierarchy=False):
                 return Outcome(False, exc=RuntimeError(f"cli exit {rc}: {err[-300:]}"), route=route)
         else:
             raise AssertionError(route)
-        return Outcome(True, read_desc(dst, fmt), route=route)
     except Exception as e:  # noqa
         return Outcome(False, exc=e, route=route)
-    finally:
-        for p in (src, dst):
-            with contextlib.suppress(OSError):
-                os.unlink(p)
+    try:
+        return Outcome(True, read_desc(dst, fmt), route=route)
+    except Exception as e:  # noqa: the tool reported success and its output cannot be read
+        o = Outcome(False, exc=e, route=route)
+        o.tool_ok = True
+        return o
 
 
 def pick_route(r, p_sub=0.0, weights=(("lib", 0.5), ("cmd", 0.3), ("cli", 0.2))):
